@@ -1,9 +1,12 @@
 import PeliteModel.Lemmas.Rich
+import PeliteModel.Lemmas.RichBytes
 /-!
 C16 — Rich header decode, checksum and encode are mutually consistent.
 Property theorems only; helper lemmas are in Lemmas/Rich.lean.
 
-Vocabulary: an image is the list of its dwords (`words` of the bytes, each `< 2^32`);
+Vocabulary: an image is the list of its dwords (`words` of the bytes, each `< 2^32`; conversely
+`words (bytesOf ws ++ tail) = ws`, `C16_words_bytesOf`, so every dword-level statement is a statement
+about the byte buffer the Rust code is handed: `C16_round_trip_bytes_partial`);
 `areaOf image` = the dwords before `e_lfanew` (dword 15 of the image, divided by 4);
 `Spec.layout stub k rs pad = stub ++ [DanS^k,k,k,k] ++ records^k ++ [Rich,k] ++ zeros pad`;
 `Spec.checksum` = the documented byte-wise rotate-and-add sum (Spec/Rich.lean).
@@ -47,25 +50,7 @@ theorem C16_rotate_is_rotation (x n : Nat) (hx : x < 4294967296) :
 
 /-! ## (b) round trip -/
 
-/-- Typing and placement conditions of the round trip: the stub contains the 16 dwords of the DOS
-header, everything is in range for its Rust type, and `e_lfanew` (dword 15 of the stub) points at
-the first byte after the padding (only `e_lfanew / 4` matters). -/
-def Admissible (stub : List Nat) (rs : List Record) (pad : Nat) : Prop :=
-  16 ≤ stub.length ∧ (∀ w ∈ stub, w < 4294967296) ∧ (∀ r ∈ rs, r.WF) ∧
-  stub.getD 15 0 / 4 = stub.length + (2 * rs.length + 6) + pad
-
-/-- The round trip for one input: the image whose DOS area is the documented layout with the
-checksum as key (followed by anything: `rest` = NT headers, sections) parses; the stub, the key,
-the records and the recomputed checksum are the ones that went in, and encoding the decoded
-records into a destination of the original size reproduces the original dwords. -/
-def RoundTrips (stub : List Nat) (rs : List Record) (pad : Nat) (rest : List Nat) : Prop :=
-  ∃ r, tryFrom (Spec.layout stub (Spec.checksum stub rs) rs pad ++ rest) = .ok r ∧
-    r.dosStub = stub ∧
-    r.xorKey = .ok (Spec.checksum stub rs) ∧
-    (∃ it, r.records = .ok it ∧ it.collect = rs) ∧
-    r.checksum = .ok (Spec.checksum stub rs) ∧
-    (∃ t, r.encode rs (2 * rs.length + 6 + pad) =
-      .ok (.done t (Spec.header (Spec.checksum stub rs) rs ++ List.replicate pad 0)))
+-- `Admissible` and `RoundTrips` (what is claimed for one input) are defined in Spec/Rich.lean.
 
 /-- **Round trip, conditional form.**  It holds whenever the checksum is not zero and no two
 consecutive records read `(product 0x536e, build 0x6144, count 0), (0, 0, 0)` (on disk: `DanS^k, k, k, k`). -/
@@ -95,6 +80,43 @@ theorem C16_round_trip_partial (stub : List Nat) (rs : List Record) (pad : Nat) 
     refine ⟨((Spec.checksum stub rs / 32) % 3 + rs.length) * 2 + 8, ?_⟩
     congr 4
     omega
+
+/-- **dwords ∘ bytes = id.**  The little-endian bytes of any list of 32-bit values, followed by up to
+three bytes that do not fill a dword, are seen by `Pe::rich_structure` (`words`: the `&[u8]` → `&[u32]`
+reinterpretation) as exactly these values.  Together with `words_lt` (bytes ↦ dwords are 32-bit values,
+`C16_rich_structure_no_ub`) this makes "list of dwords `< 2^32`" and "byte buffer" interchangeable. -/
+theorem C16_words_bytesOf (ws : List Nat) (tail : Bytes) (h : ∀ w ∈ ws, w < 4294967296)
+    (ht : tail.size < 4) : words (bytesOf ws ++ tail) = ws :=
+  words_bytesOf_append ws tail h ht
+
+example : words (bytesOf [23117, 0xfffffffe, 7] ++ #[1, 2, 3]) = [23117, 0xfffffffe, 7] := by decide +kernel
+/-- the range hypothesis is needed: a value `≥ 2^32` does not fit a dword -/
+example : words (bytesOf [4294967296]) = [0] := by decide +kernel
+
+/-- **Round trip on the byte buffer, conditional form.**  `C16_round_trip_partial` for the buffer the
+Rust code sees: the little-endian BYTES of the image (documented layout, then any 32-bit dwords `rest`,
+then up to three stray bytes), at any 4-aligned address, read through `Pe::rich_structure`. -/
+theorem C16_round_trip_bytes_partial (stub : List Nat) (rs : List Record) (pad : Nat) (rest : List Nat)
+    (tail : Bytes) (base : Nat)
+    (ha : Admissible stub rs pad)
+    (hk : Spec.checksum stub rs ≠ 0) (him : imitates rs = false)
+    (hrest : ∀ w ∈ rest, w < 4294967296) (ht : tail.size < 4) (hbase : base % 4 = 0) :
+    RoundTripsBytes stub rs pad rest tail base := by
+  obtain ⟨r, h1, h2⟩ := C16_round_trip_partial stub rs pad rest ha hk him
+  refine ⟨r, ?_, h2⟩
+  rw [ofImage_eq _ hbase]
+  show tryFrom (words (bytesOf _ ++ tail)) = .ok r
+  rw [words_bytesOf_append _ tail ?_ ht]
+  · exact h1
+  · intro w hw
+    rcases List.mem_append.1 hw with hw | hw
+    · exact layout_lt stub _ rs pad ha.2.1 (checksum_lt stub rs) ha.2.2.1 w hw
+    · exact hrest w hw
+
+/-- At an address that is not a multiple of 4 the reinterpretation itself is undefined behaviour (no
+constructed view has such an address: `validate_headers`), so the alignment hypothesis is needed. -/
+example : ofImage ⟨bytesOf [23117, 0, 0, 0, 0, 0, 0, 0, 0, 0, 0, 0, 0, 0, 0, 112], 2⟩
+    = .ub "pe.rs:473 from_raw_parts(image as *const u32)" := by decide +kernel
 
 /-- Witness 1 (zero key): a 64-byte stub `MZ 00…` and the one record `(0xffff, 0xfebf, 0)` have
 checksum 0.  The trailer `Rich, 0` then ends in a zero dword, which `try_from` strips as padding:
@@ -264,9 +286,21 @@ example : Admissible [23117, 0, 0, 0, 0, 0, 0, 0, 0, 0, 0, 0, 0, 0, 0, 112] [⟨
     imitates [⟨0x6fc4, 0x105, 77⟩, ⟨0, 1, 3⟩] = false := by
   refine ⟨by unfold Admissible; decide, by decide +kernel, by decide⟩
 
+/-- the byte-level hypotheses on the same instance (two PE dwords after the DOS area, one stray byte) -/
+example : (∀ w ∈ [0x4550, 0x14c], w < 4294967296) ∧ (#[0x90] : Bytes).size < 4 ∧ 0x140000000 % 4 = 0 := by decide
+
 example : tryFrom ([23117, 0, 0, 0, 0, 0, 0, 0, 0, 0, 0, 0, 0, 0, 0, 112,
       4251901989, 2919268705, 2919268705, 2919268705, 2936401573, 2919268652, 2919334241, 2919268706,
       1751345490, 2919268705, 0, 0] ++ [0x4550, 0x14c])
+    = .ok ⟨[23117, 0, 0, 0, 0, 0, 0, 0, 0, 0, 0, 0, 0, 0, 0, 112],
+           [4251901989, 2919268705, 2919268705, 2919268705, 2936401573, 2919268652, 2919334241, 2919268706,
+            1751345490, 2919268705]⟩ := by
+  decide +kernel
+
+/-- … and the same image as bytes, with a stray byte, through `Pe::rich_structure` -/
+example : ofImage ⟨bytesOf ([23117, 0, 0, 0, 0, 0, 0, 0, 0, 0, 0, 0, 0, 0, 0, 112,
+      4251901989, 2919268705, 2919268705, 2919268705, 2936401573, 2919268652, 2919334241, 2919268706,
+      1751345490, 2919268705, 0, 0] ++ [0x4550, 0x14c]) ++ #[0x90], 0x140000000⟩
     = .ok ⟨[23117, 0, 0, 0, 0, 0, 0, 0, 0, 0, 0, 0, 0, 0, 0, 112],
            [4251901989, 2919268705, 2919268705, 2919268705, 2936401573, 2919268652, 2919334241, 2919268706,
             1751345490, 2919268705]⟩ := by
